@@ -1863,9 +1863,21 @@ class WORDClsBase(Base):
 
         if isinstance(keyword, str):
             line = string.lstrip()
-            if line[: len(keyword)].upper() != keyword.upper():
-                return None
-            line = line[len(keyword) :]
+            if " " in keyword:
+                # A keyword made of several words (e.g. "ERROR STOP"): any
+                # amount of white space may separate them.
+                words_match = re.match(
+                    r"\s+".join(re.escape(word) for word in keyword.split()),
+                    line,
+                    re.IGNORECASE,
+                )
+                if words_match is None:
+                    return None
+                line = line[words_match.end() :]
+            else:
+                if line[: len(keyword)].upper() != keyword.upper():
+                    return None
+                line = line[len(keyword) :]
             pattern_value = keyword
         else:
             my_match = keyword.match(string)
